@@ -20,6 +20,8 @@ def main():
     os.makedirs(WORK, exist_ok=True)
     import glob
     for old in glob.glob(os.path.join(WORK, "replays", prop + "-*.json")):
+        if replay and os.path.abspath(old) == os.path.abspath(replay):
+            continue
         os.remove(old)
 
     # 1. regenerate Gen, build model + driver + this property's proofs, audit axioms
@@ -52,7 +54,7 @@ def main():
         cov = replaymod.run(prop, replay, verdict)
     elif prop in DEV_PROPS:
         import devcheck
-        cov = devcheck.run(prop, tier, seed, verdict)
+        cov = devcheck.run(prop, tier, seed, verdict, widen=proof_broken)
     else:
         import importlib
         mod = importlib.import_module("check_" + prop.lower())
